@@ -267,10 +267,10 @@ pub fn offset_oracle(c: &Offset) -> Verdict {
 
 pub fn subs() -> Vec<Box<dyn DynSub>> {
     vec![
-        sub(Sub { name: "c11.decompose_display", source: Source::Gen(dec_strategy, 500_000, 30_000_000), oracle: dec_oracle, known: no_known, hang_is_violation: false }),
-        sub(Sub { name: "c11.unit_text", source: Source::Gen(text_strategy, 300_000, 10_000_000), oracle: text_oracle, known: no_known, hang_is_violation: false }),
+        sub(Sub { name: "c11.decompose_display", source: Source::Gen(dec_strategy, 2_500_000, 30_000_000), oracle: dec_oracle, known: no_known, hang_is_violation: false }),
+        sub(Sub { name: "c11.unit_text", source: Source::Gen(text_strategy, 1_500_000, 10_000_000), oracle: text_oracle, known: no_known, hang_is_violation: false }),
         sub(Sub { name: "c11.spellings", source: Source::Enum(spelling_enum, |_| true), oracle: spelling_oracle, known: no_known, hang_is_violation: false }),
-        sub(Sub { name: "c11.offsets", source: Source::Gen(offset_strategy, 100_000, 2_000_000), oracle: offset_oracle, known: no_known, hang_is_violation: false }),
+        sub(Sub { name: "c11.offsets", source: Source::Gen(offset_strategy, 500_000, 2_000_000), oracle: offset_oracle, known: no_known, hang_is_violation: false }),
         crate::props::fuzzsub::c11_fuzz(),
     ]
 }
